@@ -224,3 +224,48 @@ func tier() string {
 	}
 	return "quick"
 }
+
+// regressFiles lists the committed regression inputs of a test.
+func regressFiles(test string) []string {
+	dir := os.Getenv("VERIF_REGRESS_DIR")
+	if dir == "" {
+		return nil
+	}
+	ents, err := os.ReadDir(dir)
+	if err != nil {
+		return nil
+	}
+	var out []string
+	for _, e := range ents {
+		if e.IsDir() || filepath.Ext(e.Name()) != ".json" {
+			continue
+		}
+		p := filepath.Join(dir, e.Name())
+		b, err := os.ReadFile(p)
+		if err != nil {
+			continue
+		}
+		var w struct {
+			Test string `json:"test"`
+		}
+		if json.Unmarshal(b, &w) == nil && (w.Test == test || w.Test == "") {
+			out = append(out, p)
+		}
+	}
+	sort.Strings(out)
+	return out
+}
+
+func loadCaseFile(p string, dst interface{}) error {
+	b, err := os.ReadFile(p)
+	if err != nil {
+		return err
+	}
+	var w struct {
+		Case json.RawMessage `json:"case"`
+	}
+	if err := json.Unmarshal(b, &w); err != nil {
+		return err
+	}
+	return json.Unmarshal(w.Case, dst)
+}
